@@ -26,22 +26,22 @@ CHECKS.update({
     ),
     "C02": dict(
         engine="LLSym + PySym/DeCy",
-        technique="(a) ef_lemma: same LLSym symbolic run of the real DP with entries constrained to error-free copies (allele = h[column] xor s[read]); z3 decides 'cost = 0 and each read-connected component carries the true haplotypes up to a swap, nothing flagged as tie'; (b) ef_detect: bounded symbolic execution (PySym/z3, DeCy for the .pyx kernels) of ReadSetReader.read on symbolic DNA: a read that is an exact copy of a haplotype never records the allele the haplotype does not carry, whatever part of the variant it covers; every path replayed on the real module with real pysam.AlignedSegment objects",
-        text="(a) solver lemma at the solver interface, for all true haplotypes / read origins / weights >= 1 of every enumerated shape; (b) the input side of that lemma: reference <= 7 (10) symbolic bases, one variant of every kind at every position, one read over every reference interval, re-alignment with overhang 1-2 (3) and CIGAR-based SNV detection. The remaining pipeline stages are claimed by their own properties (C07, C03, C04, C09); the byte-level BAM/VCF path is outside.",
+        technique="(a) ef_lemma: same LLSym symbolic run of the real DP with entries constrained to error-free copies (allele = h[column] xor s[read]); z3 decides 'cost = 0 and each read-connected component carries the true haplotypes up to a swap, nothing flagged as tie'; (b) ef_detect: bounded symbolic execution (PySym/z3, DeCy for the .pyx kernels) of ReadSetReader.read on symbolic DNA: a read that is an exact copy of a haplotype never records the allele the haplotype does not carry, whatever part of the variant it covers; every path replayed on the real module with real pysam.AlignedSegment objects; (c) ef_sources: the same executor on two input files (source ids) whose reads may share a name: each error-free read arrives in the read set as its own read with the alleles of its own haplotype",
+        text="(a) solver lemma at the solver interface, for all true haplotypes / read origins / weights >= 1 of every enumerated shape; (b) the input side of that lemma: reference <= 7 (10) symbolic bases, one variant of every kind at every position, one read over every reference interval, re-alignment with overhang 1-2 (3) and CIGAR-based SNV detection; (c) two SNVs at every pair of positions of a 6 (8) base reference, one read per input file in three layouts, equal or different names. The remaining pipeline stages are claimed by their own properties (C07, C03, C04, C09); the byte-level BAM/VCF path is outside.",
         note="As C01 and C06. One known finding (an uninformative read that stops at an insertion's anchor base is recorded as REF; reproduced with the CLI: findings/c02_read_ends_at_insertion_anchor.py). Whole-pipeline composition with real BAM/VCF files is not encodable (htslib) and not claimed.",
         design_ref="DESIGN.md §4 C02 (a)",
     ),
     "C05": dict(
-        engine="LLSym",
-        technique="LLSym symbolic run of the real DP on trio shapes in trusted-genotype mode; z3 decides: child alleles come from the respective parent's genotype, the transmission value selects the parental haplotype under one fixed labelling, read-less columns with a homozygous parent are phased; sub-check ped_parts: LLSym run of Pedigree + PedigreePartitions alone, all transmission values and every order of addRelationship calls - each child's partitions follow the two bits of the k-th added relationship (the decoding phase.py and --recombination-list use)",
-        text="Bounded: 2-3 column trios with up to 2-3 reads, all alleles/weights/recombination costs symbolic; ped_parts: trio, quartet (both orders), child listed before its parents (thorough: two trios, three generations, three children).",
+        engine="LLSym + PySym",
+        technique="LLSym symbolic run of the real DP on trio shapes in trusted-genotype mode; z3 decides: child alleles come from the respective parent's genotype, the transmission value selects the parental haplotype under one fixed labelling, read-less columns with a homozygous parent are phased; sub-check ped_parts: LLSym run of Pedigree + PedigreePartitions alone, all transmission values and every order of addRelationship calls - each child's partitions follow the two bits of the k-th added relationship (the decoding phase.py and --recombination-list use); sub-checks ped_filter / ped_genetic (PySym/z3): find_phaseable_variants resp. run_whatshap itself under stubs (reader, read input, solver contract stub, recording writer) on solver-chosen trio genotypes and read sets: conflict / missing-genotype variants never reach the solver, child-heterozygous variants with a homozygous parent reach solver and writer with or without reads",
+        text="Bounded: 2-3 column trios with up to 2-3 reads, all alleles/weights/recombination costs symbolic; ped_parts: trio, quartet (both orders), child listed before its parents (thorough: two trios, three generations, three children); ped_genetic: trio, 1-3 (4) variants, all genotype rows for <= 2 variants, 8 representative rows beyond, 27 read patterns.",
         note="As C01. The labelling convention of the transmission bits is not spelled out by the statement; the weaker reading (one fixed convention for all inputs) is asserted. Conflict/missing-genotype filtering (Python) is claimed by sub-check ped_filter when present.",
         design_ref="DESIGN.md §4 C05",
     ),
     "C20": dict(
         engine="PySym",
         technique="bounded symbolic execution (PySym/z3) of whatshap.cli.phase.run_whatshap with the environment stubbed (VCF reader/writer, read input, exact solver as contract stub, in-memory files); every path replayed on the real module with real files",
-        text="All three list files are checked against what each (chromosome, family) step produced, for 1-2 chromosomes x {single, trio, trio + unrelated sample} x distrust on/off with solver-chosen read patterns (including a phase set nested inside the family's block, 5 variants), transmission vectors and genotype changes.",
+        text="All three list files are checked against what each (chromosome, family) step produced, for 1-2 chromosomes x {single, trio, trio + unrelated sample} x distrust on/off with solver-chosen read patterns (including a phase set nested inside the family's block, 5 variants), transmission vectors and genotype changes; the phase set of every listed read is compared with the component the VCF writer is handed for the read's first variant (first variant on the first base of the contig included).",
         note="Trusted: the stubs listed in the evidence (they stand for C01/C04); PySym proxies. Outside: real BAM/VCF I/O, more than 2 chromosomes / 2 families (the defect class is per-step file handling).",
         design_ref="DESIGN.md §4 C20",
     ),
@@ -99,9 +99,9 @@ CHECKS.update({
     ),
     "C16": dict(
         engine="PySym",
-        technique="the hash seed as a symbolic variable: inside the repo modules set/frozenset iteration over hash-randomised elements yields a solver-chosen permutation (PySym/z3); run_compare, run_polyphase, run_whatshap (phase), run_genotype, run_haplotag, run_stats, run_unphase and run_split are executed under stubs twice (canonical order / solver's order; one permutation per distinct set content, as one process has one seed) and everything they write must be identical; a difference is confirmed by running the real CLI under several PYTHONHASHSEED values",
+        technique="the hash seed as a symbolic variable: inside the repo modules set/frozenset iteration over hash-randomised elements yields a solver-chosen permutation (PySym/z3); run_compare, run_polyphase, run_whatshap (phase), run_genotype, run_haplotag, run_stats, run_unphase and run_split are executed under stubs twice (canonical order / solver's order; one permutation per distinct set content, as one process has one seed) and everything they write must be identical; a difference is confirmed by running the real CLI under several PYTHONHASHSEED values; sub-check repeat: the pre-state of the file system is symbolic - per output path of stats / phase (three lists) / learn the solver chooses whether a file of an earlier run is already there, and the outputs must equal those of a run on an empty file system (replay: real CLI into a fresh and into a pre-populated directory)",
         text="compare: 2-3 single-sample VCFs, all naming patterns, --ignore-sample-name, all four output files + stdout; polyphase: 2-3 samples with solver-chosen het sets; phase: trio / quartet / trio+single / two trios x 1-2 chromosomes x --use-ped-samples x --distrust-genotypes, VCF and all three lists; genotype: same families, --no-priors, --prioroutput; haplotag: two samples sharing barcodes / read names, --sample subsets; stats (plain and tabix-indexed input, --chromosome), unphase, split: one pass each. Worker scheduling (--threads) and htslib compression threads are NOT claimed: no interleaving of OS processes/threads is visible to a symbolic executor of the source.",
-        note="Trusted: nondet set shim (over-approximates hash orders; reports need a real reproduction under two PYTHONHASHSEED values), the stubs listed in the evidence (the solver contract stubs assume independence from the order of add_individual calls). Three hash-seed defects were found and repaired in /repo (compare multiway sample column, PedReader.samples(), haplotag sample loop). haplotagphase and learn are not encoded.",
+        note="Trusted: nondet set shim (over-approximates hash orders; reports need a real reproduction under two PYTHONHASHSEED values), the stubs listed in the evidence (the solver contract stubs assume independence from the order of add_individual calls). Three hash-seed defects were found and repaired in /repo (compare multiway sample column, PedReader.samples(), haplotag sample loop). haplotagphase is not encoded for hash-seed independence (it builds no set); learn is covered for repetition only (its compiled Caller is a model that appends to the output path in the mode src/caller.cpp uses).",
         design_ref="DESIGN.md §4 C16, §9",
     ),
     "C19": dict(
@@ -138,7 +138,7 @@ CHECKS.update({
     "C10": dict(
         engine="PySym",
         technique="bounded symbolic execution (PySym/z3) of haplotag.py: prepare_haplotag_information, attempt_add_phase_information, ignore_read, linked-read pooling and run_haplotag's main loop under file stand-ins, with symbolic allele qualities; independent score oracle, tie rejection, haplotype-swap symmetry, conservation/order of records; replay on the real module with real pysam.AlignedSegment and the compiled core",
-        text="<= 3 (4) variants in <= 2 phase sets, ploidy 2-3, <= 2 linked reads, <= 4 records + unplaced tail, 4 region configurations, --tag-supplementary.",
+        text="<= 3 (4) variants in <= 2 phase sets, ploidy 2-3, <= 2 linked reads, <= 4 records + unplaced tail, 4 region configurations, --tag-supplementary; the AlignmentFile stand-in answers fetch() and the BAM index queries (get_index_statistics, mapped/unmapped counts) from the same records, incl. a second contig that holds only a placed unmapped record.",
         note="Trusted: haplotag_model stand-ins. Two genuine defects (duplicate output for alignments overlapping two --regions, stale tags on the unmapped tail) were found and repaired in /repo. Outside: BAM/CRAM file I/O, --output-threads.",
         design_ref="DESIGN.md §4 C10, §9",
     ),
@@ -152,7 +152,7 @@ CHECKS.update({
     "C17": dict(
         engine="PySym",
         technique="bounded symbolic execution (PySym/z3) of the chain haplotag (tags) -> haplotagphase (compute_votes, best_candidate, consensus, run_haplotagphase bookkeeping); replay through the real run_haplotagphase with real VcfReader/PhasedVcfWriter/pysam on files written from the witness",
-        text="<= 3 (4) variants in <= 2 phase sets, <= 2 (3) error-free reads, partially unphased second input; sub-check chain_multiallelic mixes 1-ALT and 2-ALT records (all six ordered het genotypes over alleles 0,1,2) through the allele_to_id / id_to_allele path.",
+        text="<= 3 (4) variants in <= 2 phase sets, <= 2 (3) error-free reads, partially unphased second input; sub-check chain_multiallelic mixes 1-ALT and 2-ALT records (all six ordered het genotypes over alleles 0,1,2) through the allele_to_id / id_to_allele path; sub-check chain_options: SNV and insertion records with solver-chosen --only-indels, --gap-threshold {0,70,100}, --cut-poly {0,10}.",
         note="Trusted: PhasedInputReader stand-in. One genuine defect (already phased variants without votes were un-phased) was found and repaired in /repo.",
         design_ref="DESIGN.md §4 C17, §9",
     ),
